@@ -172,6 +172,14 @@ def term(expr: ast.AST | None, env: dict[str, Term] | None = None) -> Term:
             return ('comp', elt, ((tgt, args[1], ()),))
         if isinstance(f, ast.Name) and f.id == 'list' and len(args) == 1 and not kwargs and args[0][0] == 'comp' and isinstance(expr.args[0], (ast.GeneratorExp, ast.Call)):
             return args[0]
+        # jnp.logical_and(a, b) is a & b on boolean arrays (likewise or / not)
+        if q in ('jax.numpy.logical_and', 'numpy.logical_and', 'jax.numpy.logical_or', 'numpy.logical_or') and len(args) == 2 and not kwargs:
+            return ('binop', '&' if q.endswith('and') else '|', args[0], args[1])
+        # function spellings of array methods: jnp.reshape(a, s) is a.reshape(s); a 1-tuple shape is its element
+        if q in ('jax.numpy.reshape', 'numpy.reshape', 'jax.numpy.ravel', 'numpy.ravel', 'jax.numpy.astype') and args and not kwargs:
+            return ('call', ('attr', args[0], q.rsplit('.', 1)[-1]), args[1:], ())
+        if q in ('jax.numpy.zeros', 'jax.numpy.ones', 'jax.numpy.empty', 'numpy.zeros', 'numpy.ones', 'numpy.empty') and args and args[0][0] == 'tuple' and len(args[0]) == 2:
+            args = (args[0][1],) + args[1:]
         # all(jax.tree.leaves(t)) is jax.tree.all(t)
         tree_ns = ('attr', ('var', 'jax'), 'tree')
         if isinstance(f, ast.Name) and f.id in ('all', 'any') and len(args) == 1 and not kwargs and args[0][0] == 'call' and args[0][1] == ('attr', tree_ns, 'leaves') and len(args[0][2]) == 1 and not args[0][3]:
